@@ -1,0 +1,41 @@
+//go:build verif
+
+package lnd
+
+import (
+	"context"
+
+	"github.com/lightningnetwork/lnd/lnrpc"
+	"github.com/lightningnetwork/lnd/lnrpc/routerrpc"
+)
+
+// This file is compiled only with the build tag `verif`. It gives the
+// verification harness in /verif access to the unexported payment-request
+// builder and a Client over injected (fake) lnrpc clients.
+
+// VerifBuildDirectClaimPaymentRequest calls the unexported builder unchanged.
+func VerifBuildDirectClaimPaymentRequest(
+	payreq string,
+	decoded *lnrpc.PayReq,
+	channel *lnrpc.Channel,
+	maxTotalCLTVDelta uint32,
+) (*routerrpc.SendPaymentRequest, error) {
+	return buildDirectClaimPaymentRequest(payreq, decoded, channel, maxTotalCLTVDelta)
+}
+
+// VerifNewClient returns a Client over the given rpc clients. Only the
+// payment / decode paths are usable (no watchers, no wallet).
+func VerifNewClient(
+	ctx context.Context,
+	lndClient lnrpc.LightningClient,
+	routerClient routerrpc.RouterClient,
+	pubkey string,
+) *Client {
+	return &Client{
+		lndClient:            lndClient,
+		routerClient:         routerClient,
+		ctx:                  ctx,
+		pubkey:               pubkey,
+		invoiceSubscriptions: make(map[string]interface{}),
+	}
+}
